@@ -17,3 +17,17 @@ void h_tmap_interp(void) {
     if (vg_seg == vg_i && vg_seg > 3 && x0 == x[vg_seg]) { VG_REACH(interp_anchor); }
     if (vg_seg + 2 == n && x0 > x[n - 1]) { VG_REACH(interp_extrapolate_right); }
 }
+
+void h_tmap_add(void) {
+    struct jls_tmap_s * m = malloc(sizeof(*m));
+    __CPROVER_assume(m != NULL);
+    size_t alloc, n; __CPROVER_assume(alloc >= 2 && alloc <= VG_TMAP_MAX / 2 && n <= alloc);
+    m->entries_alloc = alloc; m->entries_length = n;
+    m->sample_id = malloc(alloc * 8); m->utc = malloc(alloc * 8);
+    __CPROVER_assume(m->sample_id != NULL && m->utc != NULL);
+    int64_t sid, ts;
+    int32_t rc = jls_tmap_add(m, sid, ts);
+    VG_REACH(tmap_add_returns);
+    if (rc == 0 && n == alloc) { VG_REACH(tmap_add_grew); }
+    if (rc != 0) { VG_REACH(tmap_add_rejected); }
+}
